@@ -131,9 +131,13 @@ def render_go(f):
     return "\n".join(lines)
 
 # ------------------------------------------------------------------ rendering: Python
-def r_node(n, depth, in_class, blank=False):
+def r_node(n, depth, in_class, blank=False, tabs=False, first=False):
     is_class, decos, name, kids = n
-    ind = "    " * depth
+    # tabs: Python 2 style tab indentation; the FIRST member of a class is indented with four blanks followed by a tab,
+    # which is the same column under the tab-stop rule (the next multiple of 8) as the tab of its siblings
+    ind = ("\t" * depth if depth else "") if tabs else "    " * depth
+    if tabs and first and depth == 1:
+        ind = "    \t"
     lines = []
     for dn, args in decos:
         lines.append(ind + "@" + dn + ("(" + ", ".join(args) + ")" if args else ""))
@@ -144,7 +148,7 @@ def r_node(n, depth, in_class, blank=False):
     for i, k in enumerate(kids):
         if blank and i > 0:
             lines.append("")                 # the usual blank line between two members of a block
-        lines += r_node(k, depth + 1, is_class == "1", blank)
+        lines += r_node(k, depth + 1, is_class == "1", blank, tabs, first=(i == 0 and is_class == "1" and len(kids) > 1))
     return lines
 
 def r_as(na):
@@ -153,9 +157,9 @@ def r_as(na):
 def py_style(m):
     """layout of the rendered module, a function of the abstract module (so that a case always renders the same):
     0 compact, 1 blank lines between the members of every block and between declarations, 2 compact with Windows
-    line ends, 3 both"""
+    line ends, 3 both, 4 tab indentation (the first member of a class: blanks then a tab)"""
     import zlib
-    return zlib.crc32(vlib.sx_dump(m).encode()) % 4
+    return zlib.crc32(vlib.sx_dump(m).encode()) % 5
 
 def render_py(m):
     style = py_style(m)
@@ -169,7 +173,7 @@ def render_py(m):
             lines.append("from %s import %s" % (it[1], "(" + body + ")" if it[3] == "1" else body))
         else:
             if blank and lines: lines.append("")
-            lines += r_node(it[1], 0, False, blank)
+            lines += r_node(it[1], 0, False, blank, tabs=(style == 4))
     text = "\n".join(lines) + "\n"
     return text.replace("\n", "\r\n") if style in (2, 3) else text
 
